@@ -215,6 +215,7 @@ static int nv_finish(void)
 #include <signal.h>
 static char nv_guard_desc[1024];
 static char nv_guard_slug[64];
+static int nv_guard_exit;	/* exit status used by the watchdog (7 inside nv_forkloop children) */
 static void nv_guard_alarm(int sig)
 {
 	char buf[1400];
@@ -224,7 +225,7 @@ static void nv_guard_alarm(int sig)
 		fflush(nv_out);
 	if (write(nv_out ? fileno(nv_out) : 1, buf, n) < 0)
 		_exit(3);
-	_exit(0);
+	_exit(nv_guard_exit);
 }
 static void nv_guard(int seconds, const char *slug, const char *fmt, ...)
 {
@@ -239,6 +240,100 @@ static void nv_guard(int seconds, const char *slug, const char *fmt, ...)
 	vsnprintf(nv_guard_desc, sizeof(nv_guard_desc), fmt, ap);
 	va_end(ap);
 	alarm(seconds);
+}
+
+/* print and reset the counters (used by forked children, whose memory is lost at exit) */
+static void nv_flush_stats(void)
+{
+	int i;
+	for (i = 0; i < nv_nstats; i++)
+		if (nv_stats[i].v && strncmp(nv_stats[i].key, "max:", 4))
+			fprintf(nv_out, "STAT %s %ld\n", nv_stats[i].key, nv_stats[i].v), nv_stats[i].v = 0;
+	for (i = 0; i < nv_nhist; i++)
+		if (nv_hist[i].v)
+			fprintf(nv_out, "HIST %s %ld\n", nv_hist[i].key, nv_hist[i].v), nv_hist[i].v = 0;
+	fflush(nv_out);
+}
+
+#include <sys/mman.h>
+#include <sys/wait.h>
+#include <fcntl.h>
+/*
+ * Run fn(i) for i in [0, n) inside forked children, so that a fatal outcome (sanitizer abort, signal,
+ * hang) of case i is attributed to that case, reported as a violation, and the loop resumes at i + 1.
+ * desc(i, buf, len) writes a one-line description of case i.  Returns the number of fatal cases.
+ */
+static long nv_forkloop(long n, void (*fn)(long), void (*desc)(long, char *, int), const char *slug, const char *errpath)
+{
+	long *cur = mmap(NULL, 4096, PROT_READ | PROT_WRITE, MAP_SHARED | MAP_ANONYMOUS, -1, 0);
+	long start = 0, fatal = 0;
+	while (start < n) {
+		int st;
+		pid_t pid;
+		fflush(nv_out);
+		*cur = start;
+		pid = fork();
+		if (pid < 0) {
+			nv_err("fork failed");
+			return fatal;
+		}
+		if (!pid) {
+			long i;
+			int efd = open(errpath, O_WRONLY | O_CREAT | O_TRUNC, 0600);
+			if (efd >= 0) {
+				dup2(efd, 2);
+				close(efd);
+			}
+			nv_guard_exit = 7;
+			for (i = start; i < n; i++) {
+				if (nv_expired()) {
+					fprintf(nv_out, "STAT deadline_hit 1\n");
+					break;
+				}
+				*cur = i;
+				fn(i);
+			}
+			alarm(0);
+			*cur = n;
+			nv_flush_stats();
+			_exit(0);
+		}
+		while (waitpid(pid, &st, 0) < 0)
+			;
+		if (WIFEXITED(st) && WEXITSTATUS(st) == 0)
+			break;
+		if (WIFEXITED(st) && WEXITSTATUS(st) == 7) {	/* the child's watchdog reported the hang itself */
+			fatal++;
+			nv_nviol++;
+			start = *cur + 1;
+			continue;
+		}
+		{
+			char d[1024] = "", rep[2500] = "";
+			FILE *ef = fopen(errpath, "r");
+			desc(*cur, d, sizeof(d));
+			if (ef) {
+				size_t k = fread(rep, 1, sizeof(rep) - 1, ef);
+				char *sum;
+				rep[k] = '\0';
+				fclose(ef);
+				/* keep the headline and the first frames */
+				if ((sum = strstr(rep, "ERROR:")))
+					memmove(rep, sum, strlen(sum) + 1);
+				if (strlen(rep) > 900)
+					rep[900] = '\0';
+			}
+			fatal++;
+			if (WIFSIGNALED(st))
+				nv_viol(slug, "kind=fatal signal=%d case: %s report: %s", WTERMSIG(st), d, nv_esc(rep, -1));
+			else
+				nv_viol(slug, "kind=fatal exit=%d case: %s report: %s", WEXITSTATUS(st), d, nv_esc(rep, -1));
+		}
+		start = *cur + 1;
+	}
+	unlink(errpath);
+	munmap(cur, 4096);
+	return fatal;
 }
 
 /* small open-addressing set of 64-bit hashes, to count distinct things */
